@@ -5,6 +5,21 @@ CHECKS = {
  "C01": dict(cat="model_checking", tech="explicit-state BFS (closure / depth-bounded) over the real Array API vs a slice model",
    text="Bounded exhaustive exploration of the real Array implementation: every history inside a bounded universe (closure by canonical state key) and depth-bounded neighbourhoods of multi-level trajectory states; every return value, error, count, type and the root ID is compared with a plain slice model on every transition, and the array is reopened by its root ID after a commit.",
    note="Trusts the harness's slice model and state key (argued in DESIGN.md §4.3); values outside the size-class alphabet and slab sizes other than those listed are not covered.", ref="§5 C01"),
+ "C02": dict(cat="model_checking", tech="explicit-state BFS (closure / depth-bounded) over the real OrderedMap API vs an insertion-ordered dictionary model",
+   text="Bounded exhaustive exploration of the real OrderedMap: from every reachable state of a bounded key/value universe (closure) and of grow/drain trajectories with controlled digests (depth-bounded), every Set/Get/Has/Remove/PopIterate/SetType on present and absent keys is executed and every return value, removed pair, count and error type is compared with a dictionary model; reopen by root ID after commit.",
+   note="Trusts the dictionary model and the canonical state key; keys come from a finite universe; real hashing in the closure spaces, caller-supplied digests on trajectories.", ref="§5 C02"),
+ "C05": dict(cat="model_checking", tech="explicit-state BFS + independent structural oracle after every transition; exhaustive sweep over slab sizes",
+   text="Every state of the array/map/nested spaces (edge-biased sizes) and trajectory neighbourhoods is checked by the library's verifiers and by an independent traversal (size band, per-element limits, index root >= 2 children, header copies, sibling links, digest order), in memory and on slabs decoded from committed registers; all legal slab sizes are swept with the arithmetic obligations and a canned script.",
+   note="Band endpoints are the library's integer thresholds floor(T/2), floor(1.5T); quick tier sweeps all sizes <=2048 and every 7th above, thorough all 32513.", ref="§5 C05"),
+ "C06": dict(cat="model_checking", tech="explicit-state BFS; per-register size accounting oracle with an independent CBOR item skipper",
+   text="After every transition of the spaces (all element kinds: scalar widths, strings, wrappers, inlined arrays/maps, compact maps, references) the state is committed and every register's byte length minus the two extra-data sections is compared with the reported size (only the two documented savings allowed), and decoded vs in-memory reported sizes must agree.",
+   note="Extra-data section lengths are measured by the harness's own CBOR skipper; compact-map saving is accepted as <= only.", ref="§5 C06"),
+ "C07": dict(cat="model_checking", tech="explicit-state BFS; decode/re-encode identity + content + header-flag oracle on every register produced",
+   text="Every register produced by a commit after every transition of the spaces is decoded and re-encoded (byte identity), the decoded slab is compared field-by-field and element-by-element with the in-memory slab (compact maps excepted), and root/has-pointers/size-limit flags are compared with the harness's own reading of the content.",
+   note="Pointer flag of index slabs is not asserted (the property speaks of elements).", ref="§5 C07"),
+ "C09": dict(cat="model_checking", tech="explicit-state BFS; independent reachability oracle (storage IDs == reachable IDs) before and after commit",
+   text="With the harness disposing of every value handed back, after every transition (and again after commit) the slab IDs held by write set + ledger must equal the IDs reachable from live roots by an independent traversal, each referenced once, one owner per tree; alphabets are biased to auxiliary slabs (externalised values/keys, inline<->standalone children, bulk pops).",
+   note="CheckStorageHealth is used only as a second opinion (C20 decides its trustworthiness).", ref="§5 C09"),
 }
 NA = {}
 import sys
